@@ -1,5 +1,6 @@
 //! vharness: drives the real vibrato implementation on generated cases and prints
 //! one protocol line per case (input + implementation observation).
+mod cli;
 mod conn;
 mod corpus;
 mod csvs;
@@ -476,6 +477,11 @@ fn main() {
                 trainer::run(mode, seed, n, &mut out);
             }
         },
+        "cli" => {
+            let seed: u64 = args[2].parse().unwrap();
+            let n: usize = args[3].parse().unwrap();
+            cli::run(seed, n, &mut out);
+        }
         "corpus" => {
             let seed: u64 = args[2].parse().unwrap();
             let n: usize = args[3].parse().unwrap();
